@@ -28,6 +28,7 @@
 #include <stdlib.h>
 #include <stdio.h>
 #include <stdint.h>
+#include <limits.h>
 #include <stdbool.h>
 #include <string.h>
 #include <sys/stat.h>
@@ -337,6 +338,13 @@ bool ZCK_PUBLIC_API zck_set_ioption(zckCtx *zck, zck_ioption option, ssize_t val
         VALIDATE_READ_BOOL(zck);
         if(value < 0) {
             set_error(zck, "Header hash type can't be less than zero: %lli",
+                      (long long) value);
+            return false;
+        }
+        /* The type is kept in an int: a larger value must not be cut down to
+         * one that happens to name a hash type */
+        if(value > INT_MAX) {
+            set_error(zck, "Header hash type is too large: %lli",
                       (long long) value);
             return false;
         }
